@@ -420,7 +420,7 @@ var fileNames = map[string][]string{
 	"spdx23-json":      {"o.spdx.json", "Result.SPDX.JSON", "a b.spdx.json", "scan-v1.2.spdx.json", "host.example.com-2026-09-30.spdx.json", ".spdx.json"},
 	"spdx23-yaml":      {"o.spdx.yml", "O.Spdx.Yml", "scan-v1.2.spdx.yml", "host.example.com.spdx.yml", "result.spdx.yaml"},
 	"spdx23-tag-value": {"o.spdx", "sbom.SPDX", "v1.2.spdx"},
-	"cdx-json":         {"o.cdx.json", "bom.json", "BOM.JSON", "x.CDX.json", "scan-v1.2.cdx.json", "host.example.com-2026-09-30.cdx.json", "result.cyclonedx.json"},
+	"cdx-json":         {"o.cdx.json", "bom.json", "BOM.JSON", "x.CDX.json", "scan-v1.2.cdx.json", "host.example.com-2026-09-30.cdx.json"},
 	"cdx-xml":          {"o.cdx.xml", "bom.xml", "Bom.Xml", "x.y.z.cdx.xml"},
 }
 // (result.spdx.yaml is the name binary/cli/cli_test.go gives an spdx23-yaml output, result.cyclonedx.json the one the help text of the -o flag
